@@ -113,7 +113,7 @@ impl Get for Impl {
             _ => None }
     }
 //@@ fn f.match = src/functions/string/regex/match_regex.rs :: fn get :: impl Get for Impl :: fn get
-//@@ safety C04 C05 C13
+//@@ safety C04 C05 C13 C11
 //@@ post doc "(match s p): whether the string s matches the regular expression p; nothing when an argument is absent or not a string, or p is not a regular expression"
 //@@ endfn
 }
